@@ -156,6 +156,27 @@ def gen_desc(rng, maxrows=4, tiny=False, minrows=0):
     return d
 
 
+def vary_same_layout(rng, d):
+    """Another collection with exactly the same layout (row counts, offsets, string lengths, presence of
+    index / reference sequence) but different column contents: its dump has the same descriptors."""
+    e = copy.deepcopy(d)
+    e["sequence_length"] = struct.pack("<d", struct.unpack("<d", bytes.fromhex(d["sequence_length"]))[0] * 3 + 1).hex()
+    e["metadata"] = rbytes(rng, len(d["metadata"]) // 2).hex()
+    for name in TABLE_ORDER:
+        fixed, ragged, _ = TABLES[name]
+        t = e["tables"][name]
+        for c, dt in fixed:
+            t["cols"][c] = rand_col(rng, dt, t["n"])
+        for c, dt in ragged:
+            data, offs = t["ragged"][c]
+            t["ragged"][c] = [rand_col(rng, dt, offs[-1]), offs]
+    if e["refseq"] is not None:
+        rs = e["refseq"]
+        rs["metadata"] = rbytes(rng, len(rs["metadata"]) // 2).hex()
+        rs["data"] = "".join(rng.choice("ACGT") if ch in "ACGTN" else ch for ch in rs["data"])
+    return e
+
+
 def desc_from_tc(tc):
     """Column-level description of an existing table collection (used for the valid
     tree sequences of harness/gen_ts.py)."""
@@ -549,9 +570,17 @@ PRELUDE = ("From TskVerif Require Import Base.Common Gen.Generated C05.Bytes C05
 # Family: roundtrip
 # ---------------------------------------------------------------------------
 
-def valid_ts_desc(rng):
+def valid_ts_desc(rng, rich=False):
+    """rich: every id column of every table is non-empty (migrations between >= 2 populations, individuals
+    with parents, nodes with individuals and populations, >= 2 edges, a mutation with a parent mutation)."""
     from harness import gen_ts
-    g = gen_ts.random_desc(rng, max_nodes=6, max_L=5, migrations=rng.random() < 0.3)
+    for _ in range(400 if rich else 1):
+        g = gen_ts.random_desc(rng, max_nodes=6, max_L=5, migrations=(True if rich else rng.random() < 0.3))
+        if not rich:
+            break
+        if g["migrations"] and any(i[2] for i in g["individuals"]) and any(n[2] >= 0 for n in g["nodes"]) \
+                and any(n[3] >= 0 for n in g["nodes"]) and len(g["edges"]) >= 2 and any(m[3] >= 0 for m in g["mutations"]):
+            break
     tc = gen_ts.build_tables(g)
     tc.time_units = rng.choice(TIME_UNITS)
     if rng.random() < 0.5:
@@ -568,7 +597,7 @@ class Roundtrip(Family):
     name = "roundtrip"
     prelude = PRELUDE
     timeout = 60.0
-    shard = 25
+    shard = 13
     workers = 8
 
     def generate(self, rng, tier):
@@ -584,6 +613,9 @@ class Roundtrip(Family):
         for i in range(n_any):
             k = rng.choice([1, 1, 1, 2, 3])
             descs = [gen_desc(rng, maxrows=rng.choice([1, 2, 4, 6]), tiny=rng.random() < 0.2) for _ in range(k)]
+            if i % 4 == 1:      # objects that share their layout but differ in content, and one that differs in layout
+                base = gen_desc(rng, maxrows=3, minrows=1)
+                descs = [base, vary_same_layout(rng, base)] + ([gen_desc(rng, maxrows=2)] if i % 8 == 1 else [])
             yield {"descs": descs, "build": rng.choice(["fromdict", "fromdict64", "setcols", "fromdict_strided",
                                                          "fromdict_reversed", "setcols_strided", "setcols_reversed"]),
                    "buffered": rng.random() < 0.5, "valid": False, "tail_k": rng.choice([0, 1, 1, 2])}
@@ -758,6 +790,41 @@ class Roundtrip(Family):
                     except Exception as e:
                         r.append([exc_name(e), fd_pos(f)])
                 st["skip"][kwname] = r
+            # mixed reads at store offsets > 0: j eager loads, then object j with a skip_* option (lazy
+            # kastore path); the content must be object j's (restricted by the option), also reached by seeking
+            blank = canon_dict(tskit.TableCollection(1).asdict())
+            mixed = []
+            for j in range(1, len(tcs)):
+                for kwname, kw in (("skip_tables", {"skip_tables": True}),
+                                   ("skip_reference_sequence", {"skip_reference_sequence": True}),
+                                   ("both", {"skip_tables": True, "skip_reference_sequence": True})):
+                    for how in ("eager-then-lazy", "seek"):
+                        try:
+                            with open(q, "rb", **({} if case["buffered"] else {"buffering": 0})) as f:
+                                if how == "seek":
+                                    f.seek(sizes[j - 1])
+                                else:
+                                    for _ in range(j):
+                                        tskit.TableCollection.load(f)
+                                got = canon_dict(tskit.TableCollection.load(f, **kw).asdict())
+                            exp = dict(obs["built"][j])
+                            if "skip_tables" in kw:
+                                for key in exp:
+                                    if "/" in key:
+                                        exp[key] = blank[key]
+                                exp["indexes"] = got["indexes"]
+                            if "skip_reference_sequence" in kw:
+                                exp["refseq"] = None
+                            mixed.append([j, kwname, how, canon_diff(exp, got)])
+                        except Exception as e:
+                            mixed.append([j, kwname, how, "raised " + exc_name(e)])
+            st["mixed"] = mixed
+            obs["files"] = []
+            off = 0
+            allb = open(q, "rb").read()
+            for sz in sizes:
+                obs["files"].append(allb[off:sz].hex())
+                off = sz
             # truncated tail: after k complete objects the stream ends inside a further object (every
             # header offset 1..16, then a grid up to 65, descriptor/key/array cuts).  Only a stream that
             # ends exactly at an object boundary may give EOFError.
@@ -875,6 +942,10 @@ class Roundtrip(Family):
             exp = [["ok", sz] for sz in st["sizes"]] + [["EOFError", st["sizes"][-1]]]
             if r != exp:
                 out.append(("stream-consumed:" + kwname, "loads with %s=True on a stream of %d objects gave %s, expected %s" % (kwname, len(st["sizes"]), r, exp)))
+        for j, kwname, how, r in st.get("mixed", []):
+            if r:
+                out.append(("stream-mixed-lazy:" + kwname, "object %d of the stream read with %s after %s is not the %d-th dumped object: %s"
+                            % (j, kwname, how, j, r)))
         for via, c, o in st.get("tails", []):
             if o == "EOFError":
                 out.append(("stream-truncated-tail:eof:" + via.split(":")[0],
@@ -909,6 +980,18 @@ class Roundtrip(Family):
                 sr = "true" if via == "path:skip_reference_sequence" else "false"
                 tl.append("verdict_agrees (load_verdict %s %s (firstn (Z.to_nat %d) f)) %s" % (sk, sr, c, c10.vcode(o, "tc")))
         tails_term = " && ".join(tl) if tl else "true"
+        # object 1 of the stream, followed by more bytes, read lazily: the model returns object 1's
+        # content restricted by the option (tied to the implementation by the stream-mixed-lazy oracle)
+        if len(case["descs"]) > 1 and len(obs.get("files", [])) > 1 and len(bytes.fromhex(obs["files"][1])) <= 9000:
+            f1 = bytes.fromhex(obs["files"][1])
+            uuid1 = {k: v for (k, _t, _n, v) in kas_items_of(f1)}[b"uuid"]
+            tails_term += (" && (let f1 := %s in let t1 := tc_normalise %s in "
+                           "match tsk_load_bytes false true (f1 ++ f) with Ok (x, _) => tcoll_eqb x "
+                           "(mk_tcoll (tc_L t1) (tc_uuid t1) (tc_time_units t1) (tc_metadata t1) (tc_metadata_schema t1) (tc_tables t1) (tc_index t1) None) | _ => false end"
+                           " && match tsk_load_bytes true false (f1 ++ f) with Ok (x, _) => zlist_eqb (tc_L x) (tc_L t1) && zlist_eqb (tc_metadata x) (tc_metadata t1)"
+                           " && zlist_eqb (tc_time_units x) (tc_time_units t1) && zlist_eqb (tc_uuid x) (tc_uuid t1)"
+                           " && tcoll_eqb (mk_tcoll [] [] [] [] [] [] None (tc_refseq x)) (mk_tcoll [] [] [] [] [] [] None (tc_refseq t1)) | _ => false end)"
+                           % (clist(f1), coq_tc(case["descs"][1], uuid1)))
         return ("(let f := " + clist(fb) + " in let tc := " + tc + " in "
                 "(" + tails_term + ") && "
                 "zlist_eqb (tsk_dump_bytes tc) f && "
